@@ -1314,3 +1314,88 @@ def borrow(repo, rep, rule, origin, func, constructs, minimum=1):
         raise AnalysisError("borrowed obligations %s of %s vanished" % (
             list(constructs), origin))
     return b.n
+
+
+# ---------------------------------------------------------------------------
+# generated identifiers are identifiers
+
+
+def unsafe_identifier_prefixes(repo):
+    """Call sites of compiler.identifier() whose *prefix* may contain a
+    character that is not legal in a Python identifier (a template name may:
+    tal.NAME admits '-').  Empty if identifier() itself passes the prefix
+    through mangle().  -> (analysed call sites, [(func, call, reason)])"""
+    import re as _re
+    idf = repo.func("chameleon.compiler.identifier")
+    prm = idf.node.args.args[0].arg
+    raw = []
+    for n in ast.walk(idf.node):
+        if isinstance(n, ast.Name) and n.id == prm and \
+                isinstance(n.ctx, ast.Load):
+            a = getattr(n, "_parent", None)
+            wrapped = False
+            while a is not None and a is not idf.node:
+                if isinstance(a, ast.Call) and src(a.func) in ("mangle",
+                                                                 "id"):
+                    wrapped = True
+                    break
+                a = getattr(a, "_parent", None)
+            if not wrapped:
+                raw.append(n)
+    sites = []
+    for q, fn in sorted(repo.funcs.items()):
+        for n in ast.walk(fn.node):
+            if isinstance(n, ast.Call) and src(n.func) == "identifier" \
+                    and n.args:
+                sites.append((fn, n))
+    if not raw:
+        return len(sites), []
+
+    def intlike(e, fn):
+        e = inline_locals(fn.node, e)
+        t = src(e)
+        return bool(_re.match(r"^(str\()?id\(.*\)\)?(\.replace\('-', '_'\))?$",
+                              t)) or isinstance(e, ast.Constant) and \
+            isinstance(e.value, int)
+
+    def safe(e, fn):
+        if isinstance(e, ast.Constant) and isinstance(e.value, str):
+            return bool(_re.match(r"^\w+$", e.value)), "constant %r" % e.value
+        if isinstance(e, ast.BinOp) and isinstance(e.op, ast.Mod) and \
+                isinstance(e.left, ast.Constant) and \
+                isinstance(e.left.value, str) and \
+                _re.match(r"^(\w|%[sd])+$", e.left.value):
+            args = e.right.elts if isinstance(e.right, ast.Tuple) \
+                else [e.right]
+            for a in args:
+                if not (intlike(a, fn) or (
+                        isinstance(a, ast.Call) and
+                        src(a.func) == "mangle")):
+                    return False, "%s formats %s" % (src(e), src(a))
+            return True, ""
+        if isinstance(e, ast.Call) and src(e.func) == "mangle":
+            return True, ""
+        # a name taken from the node of a visit_<Kind> method: safe if every
+        # constructor call of that kind passes a list of constant words
+        e2 = inline_locals(fn.node, e)
+        if fn.name.startswith("visit_") and \
+                src(e2).startswith("node.names["):
+            kind = fn.name[len("visit_"):]
+            ctor = []
+            for q2, f2 in repo.funcs.items():
+                for c in ast.walk(f2.node):
+                    if isinstance(c, ast.Call) and \
+                            src(c.func) in ("nodes." + kind, kind) and c.args:
+                        ctor.append(c.args[0])
+            if ctor and all(isinstance(a, ast.List) and a.elts and all(
+                    isinstance(x, ast.Constant) and isinstance(x.value, str)
+                    and _re.match(r"^\w+$", x.value) for x in a.elts)
+                    for a in ctor):
+                return True, ""
+        return False, src(e)
+    bad = []
+    for fn, call in sites:
+        ok, why = safe(call.args[0], fn)
+        if not ok:
+            bad.append((fn, call, why))
+    return len(sites), bad
